@@ -245,8 +245,7 @@ def case(item):
                           pair.world.s2c.log, c._clientRandom,
                           c._serverRandom)
     if info.tls13:
-        nku = sum(1 for d in ("c2s", "s2c") for (t, pt, il, rl) in w[d]
-                  if t == 22 and pt[:1] == b"\x18")
+        nku = sum(w["key_updates"].values())
         if nku != 2:
             rec["fails"].append("reference record layer saw %d KeyUpdate "
                                 "messages, expected one per direction" % nku)
